@@ -283,6 +283,36 @@ func init() {
 				}
 			}
 		}
+		// a loop whose body is empty: a non-iterable is still an error, an iterator is still walked to its end
+		for _, it := range its {
+			for _, form := range []string{"<% for (k, v) in X { } %>|end", "<%= for (k, v) in X {} %>|end", "<%= for (v) in X { %><% } %>|end"} {
+				tmpl := strings.Replace(form, "X", it.expr, 1)
+				c := RCase{Tmpl: tmpl}
+				if it.bind != nil {
+					c.Binds = []Bind{*it.bind}
+				}
+				o := e.addRenderCase("empty-body", c)
+				rp := map[string]interface{}{"case": c, "observed": o}
+				if it.class == "ERR" {
+					if o.Class != "ERR" {
+						e.Violate("c08-noniterable", fmt.Sprintf("for over %s with an empty body: want an error, got %q (%s)", it.name, o.Out, o.Class), rp)
+					}
+				} else if o.Class != "OK" || o.Out != "|end" {
+					e.Violate("c08-unroll", fmt.Sprintf("%s: rendered %q (%s), an empty body renders nothing", tmpl, o.Out, o.Class), rp)
+				}
+			}
+		}
+		for _, t := range [][2]string{
+			{"<% let r = range(1, 3) %><% for (x) in r { } %><%= for (i, x) in r { %><%= i %>:<%= x %>,<% } %>|", "|"},
+			{"<% let r = until(3) %><%= for (x) in r { %><% } %><%= for (x) in r { %><%= x %><% } %>|", "|"},
+			{"<% let r = range(1, 3) %><%= for (x) in r { %><% break %><% } %><%= for (i, x) in r { %><%= i %>:<%= x %>,<% } %>|", "0:2,1:3,|"},
+		} {
+			c := RCase{Tmpl: t[0]}
+			o := e.addRenderCase("iterator-consumed", c)
+			if o.Class != "OK" || o.Out != t[1] {
+				e.Violate("c08-unroll", fmt.Sprintf("%s: rendered %q (%s %s), want %q: an iterator is walked until exhausted (or until break)", t[0], o.Out, o.Class, firstLine(o.Msg), t[1]), map[string]interface{}{"case": c, "observed": o})
+			}
+		}
 		// maps whose keys print alike (1 and "1" in a map keyed by interface{}): once per ENTRY
 		{
 			extra := map[string]interface{}{"mik": map[interface{}]string{1: "int", "1": "string", "2": "other", true: "bool", "true": "strue"}, "mi64": map[interface{}]int{int64(1): 10, 1: 11, 1.0: 12}}
